@@ -11,6 +11,9 @@ import (
 	"strings"
 
 	sdk "github.com/cosmos/cosmos-sdk/types"
+	"github.com/medibloc/panacea-core/v2/app"
+	didkeeper "github.com/medibloc/panacea-core/v2/x/did/keeper"
+	didtypes "github.com/medibloc/panacea-core/v2/x/did/types"
 	aolkeeper "github.com/medibloc/panacea-core/v2/x/aol/keeper"
 	aoltypes "github.com/medibloc/panacea-core/v2/x/aol/types"
 )
@@ -122,4 +125,61 @@ func monAolGenesisConsistency(s *Stream, prop string) {
 			return "pass"
 		}))
 	}
+}
+
+// mon.c08.export-at-sequence-end: a DID whose sequence has reached the end of the uint64 range by accepted operations
+// (a genesis close to the end, then one deactivation) — the chain's own exported genesis must pass the modules'
+// genesis validation and import again.
+func monC08ExportAtSequenceEnd(s *Stream) {
+	s.Emit("mon.c08.export-at-sequence-end", guard(func() string {
+		k := newDidKey("seq-end-owner")
+		did := didtypes.NewDID(k.pub)
+		vmID := did + "#key1"
+		vm := &didtypes.VerificationMethod{Id: vmID, Type: didtypes.ES256K_2019, Controller: did, PublicKeyBase58: k.b58}
+		d := didtypes.NewDIDDocument(did, didtypes.WithVerificationMethods([]*didtypes.VerificationMethod{vm}),
+			didtypes.WithAuthentications([]didtypes.VerificationRelationship{rel(vmID)}))
+		seq := ^uint64(0) - 1
+		w := didtypes.NewDIDDocumentWithSeq(&d, seq)
+		gs := didtypes.GenesisState{Documents: map[string]*didtypes.DIDDocumentWithSeq{didtypes.GenesisDIDDocumentKey{DID: did}.Marshal(): &w}}
+		if err := gs.Validate(); err != nil {
+			return "pass #rejected-by-genesis-validation"
+		}
+		c0, err := NewChain(memDB(), tmpHome(), nil, 0, nil)
+		if err != nil {
+			return "pass #no-chain"
+		}
+		bz, err := c0.App.AppCodec().MarshalJSON(&gs)
+		if err != nil {
+			return "pass #not-encodable"
+		}
+		c, err := NewChain(memDB(), tmpHome(), nil, 0, map[string]json.RawMessage{didtypes.ModuleName: bz})
+		if err != nil {
+			return "pass #rejected-by-init-genesis"
+		}
+		c.Begin(c.Time)
+		ms := didkeeper.NewMsgServerImpl(c.App.DidKeeper)
+		g := sdk.WrapSDKContext(c.DeliverCtx())
+		sig, _ := didtypes.Sign(&didtypes.DIDDocument{Id: did}, seq, k.priv)
+		from := sdk.AccAddress([]byte("relayer-1-address-xx")).String()
+		if _, err := ms.DeactivateDID(g, &didtypes.MsgDeactivateDIDRequest{Did: did, VerificationMethodId: vmID, Signature: sig, FromAddress: from}); err != nil {
+			return "pass #deactivation-refused"
+		}
+		g1 := exportCustom(c, c.DeliverCtx())
+		full := c.App.DefaultGenesis()
+		for k, v := range g1 {
+			full[k] = v
+		}
+		if err := app.ModuleBasics.ValidateGenesis(c.App.AppCodec(), c.App.TxConfig(), full); err != nil {
+			return "fail #exported-genesis-fails-validation " + err.Error()[:min(90, len(err.Error()))]
+		}
+		c2, err := NewChain(memDB(), tmpHome(), nil, 0, g1)
+		if err != nil {
+			return "fail #exported-genesis-does-not-import"
+		}
+		c2.Begin(c2.Time)
+		if !sameGenesis(g1, exportCustom(c2, c2.DeliverCtx())) {
+			return "fail #re-export-differs"
+		}
+		return "pass"
+	}))
 }
